@@ -47,7 +47,8 @@ QHA_ATTRS = {
 }
 # the settings dictionary the qha Calculator was constructed with (cij hands it qha.settings + the user's qha.settings section):
 # numeric entries are atoms; the option-like entries are enumerated by the rules that depend on them (qha_settings(energy_unit=...))
-PMIN_S, DP_S, NTV_S, NT_S, DT_S, TMIN_S = sp.symbols("SET_P_MIN SET_DELTA_P SET_NTV SET_NT SET_DT SET_T_MIN", **P)
+PMIN_S, DP_S, DT_S, TMIN_S = sp.symbols("SET_P_MIN SET_DELTA_P SET_DT SET_T_MIN", **P)
+NTV_S, NT_S = sp.symbols("SET_NTV SET_NT", positive=True, integer=True)
 
 
 def qha_settings(energy_unit="ry", **over):
